@@ -62,8 +62,27 @@ pub fn judge(x: &Vec<u8>, st: &mut Stats) -> Verdict {
         }
     }
     if r2.is_ok() {
-        if a != HeaderResult::V2(imp::v2_parse(x).unwrap()) {
+        let want = HeaderResult::V2(imp::v2_parse(x).unwrap());
+        if a != want {
             return fail("v2-result-not-returned", "auto == V2(the v2 parser's header)".into());
+        }
+        // "the same result" field by field, not only under the type's own `==`: every public field and view of the two
+        // headers agrees (equality is the library's to define; the statement is about what the caller gets)
+        if let (HeaderResult::V2(Ok(g)), HeaderResult::V2(Ok(w))) = (&a, &want) {
+            let same = format!("{:?}", g) == format!("{:?}", w)
+                && g.header.as_ref() == w.header.as_ref()
+                && g.version == w.version
+                && g.command == w.command
+                && g.protocol == w.protocol
+                && imp::addr2(&g.addresses) == imp::addr2(&w.addresses)
+                && g.length() == w.length()
+                && g.len() == w.len()
+                && g.address_family() == w.address_family()
+                && g.address_bytes() == w.address_bytes()
+                && g.tlv_bytes() == w.tlv_bytes();
+            if !same {
+                return fail("v2-result-not-returned", "auto's header has the same fields and views as the v2 parser's header (compared one by one)".into());
+            }
         }
         return Ok(());
     }
@@ -75,8 +94,14 @@ pub fn judge(x: &Vec<u8>, st: &mut Stats) -> Verdict {
             }
             return Ok(());
         }
-        if a != HeaderResult::V1(imp::v1_bytes(x).unwrap()) {
+        let want = HeaderResult::V1(imp::v1_bytes(x).unwrap());
+        if a != want {
             return fail("v1-result-not-returned", "auto == V1(the v1 parser's header)".into());
+        }
+        if let (HeaderResult::V1(Ok(g)), HeaderResult::V1(Ok(w))) = (&a, &want) {
+            if format!("{:?}", g) != format!("{:?}", w) || g.header != w.header || imp::addr1(&g.addresses) != imp::addr1(&w.addresses) || g.protocol() != w.protocol() || g.addresses_str() != w.addresses_str() {
+                return fail("v1-result-not-returned", "auto's header has the same fields and views as the v1 parser's header (compared one by one)".into());
+            }
         }
         return Ok(());
     }
